@@ -82,11 +82,18 @@ func propQuote(c harness.Case) harness.Result {
 	roots, refs := cm.Parse(append([]byte(nil), d...))
 	nt, labels := describe(roots)
 	res := harness.Result{Nontrivial: nt, Labels: labels}
-	prefix := strings.Repeat(" ", c.I["indent"]%4) + "> "
+	// a block quote marker is 0-3 spaces, '>' and an optional space; the space
+	// may only be left out where the line does not itself begin with a space
+	// (the marker would take that one as its own)
+	ind := strings.Repeat(" ", c.I["indent"]%4)
 	var q []byte
 	lines := gen.SplitLines(d)
-	for _, l := range lines {
-		q = append(q, prefix...)
+	for i, l := range lines {
+		q = append(q, ind...)
+		q = append(q, '>')
+		if c.I["nospace"] == 0 || len(l) == 0 || l[0] == ' ' || (c.I["nospace"] == 2 && i%2 == 0) {
+			q = append(q, ' ')
+		}
 		q = append(q, l...)
 	}
 	qroots, qrefs := cm.Parse(append([]byte(nil), q...))
@@ -228,6 +235,7 @@ func genCase(g *rapid.Generator[[]byte]) func(t *rapid.T) harness.Case {
 		c.SetS("marker", markers[rapid.IntRange(0, len(markers)-1).Draw(t, "marker")])
 		c.SetI("n", rapid.IntRange(0, 3).Draw(t, "n"))
 		c.SetI("indentblank", rapid.IntRange(0, 1).Draw(t, "ib"))
+		c.SetI("nospace", rapid.IntRange(0, 2).Draw(t, "nospace"))
 		return c
 	}
 }
@@ -241,7 +249,7 @@ func genListDoc(g *rapid.Generator[[]byte]) *rapid.Generator[[]byte] {
 	})
 }
 
-const ruleQ = "D = G1/G2/G3 input with tabs replaced by spaces; every line (split on LF, CR, CRLF) prefixed with 0-3 spaces + '> '; oracle = Parse(Q(D)) is a single BlockQuote (no block for the empty document) whose children, rendered by the reference renderer in safe mode, equal the root blocks of D rendered the same way (canonical form: newline runs next to block tags dropped); non-trivial = D has >= 2 root blocks, a multi-line inline construct, a reference definition or a container"
+const ruleQ = "D = G1/G2/G3 input with tabs replaced by spaces; every line (split on LF, CR, CRLF) prefixed with 0-3 spaces + '>' + the optional space (left out on all / every other line that does not itself begin with a space); oracle = Parse(Q(D)) is a single BlockQuote (no block for the empty document) whose children, rendered by the reference renderer in safe mode, equal the root blocks of D rendered the same way (canonical form: newline runs next to block tags dropped); non-trivial = D has >= 2 root blocks, a multi-line inline construct, a reference definition or a container"
 const ruleL = "D as above with leading white space removed; outside the law's domain (counted, not checked) when it starts with a space or has a non-empty whitespace-only line; marker from - + * and 1-9 digits with . or ), N in 1..4, interior empty lines left empty or indented; skipped when the first line of L(D) is a thematic break; oracle = a single one-item List whose children after the marker equal the root blocks of D under the same rendering; non-trivial as for the quote law"
 
 func TestProperty(t *testing.T) {
